@@ -18,7 +18,7 @@
 From Coq Require Import List ZArith Permutation Sorted.
 From TskVerif Require Import Base.Common C07.Model C07.ListLemmas C07.CmpLemmas C07.SortProofs
      C07.RaggedProofs C07.TopProofs C07.IdemProofs C07.PartialProofs C07.MutParentsProofs C07.SweepProofs
-     C07.IndexProofs C07.DedupProofs C07.PipelineProofs C07.SquashProofs C07.Refuted C07.Examples.
+     C07.IndexProofs C07.DedupProofs C07.PipelineProofs C07.SquashProofs C07.IndProofs C07.Refuted C07.Examples.
 Import ListNotations.
 Open Scope Z_scope.
 
@@ -172,6 +172,25 @@ Theorem squash_covers_same_and_is_maximal : forall Q edges out,
   (forall p c x, cov edges p c x <-> cov out p c x) /\
   Sorted (fun a b => ~ mergeable a b) out.
 Proof. exact squash_edges_spec. Qed.
+
+(* tsk_table_collection_individual_topological_sort (TableCollection.sort_individuals, tables.c
+   7201 / 7279), whenever it returns Ok (i.e. references intact and no parent cycle): there is a
+   permutation [ids] (the original id of every output row) such that only the individual table
+   and nodes.individual change; output row q is input row ids[q] with every parent renamed to the
+   new id of the same individual; nodes.individual of EVERY node is the new id of its old
+   individual (or stays NULL); and every parent id is smaller than its child's row id.  Proved
+   from the invariant of Kahn's algorithm as coded (incoming_edge_count[p] = number of parent
+   slots naming p among the unprocessed individuals). *)
+Theorem sort_individuals_permutes_parents_first : forall t t',
+  sort_individuals t = Ok t' ->
+  exists ids,
+    Permutation (zseq 0 (length (t_inds t))) ids /\
+    t' = set_inds_nodes t (t_inds t') (t_nodes t') /\
+    Forall2 (fun i r' => exists r, get (t_inds t) i = Ok r /\ ind_image ids r r') ids (t_inds t') /\
+    Forall2 (fun nd nd' => nd' = node_set_ind nd (n_ind nd') /\ id_image ids (n_ind nd) (n_ind nd'))
+            (t_nodes t) (t_nodes t') /\
+    (forall q r' p', nth_error (t_inds t') q = Some r' -> In p' (i_parents r') -> p' <> NULL -> p' < Z.of_nat q).
+Proof. exact sort_individuals_spec. Qed.
 
 (* the repair pipeline, as far as it is proved: for a referentially intact, logically
    consistent collection ([consistent_input]: edges inside [0,L) with the parent strictly older,
